@@ -347,6 +347,27 @@ def minimise(f, workdir, tree, budget=60.0, canaries=None):
             else:
                 i += width
         ctx["argv"] = argv
+        # 6. for generator-made programs (no reference model attached): drop source lines one at a time
+        if not ctx.get("family") and str(ctx.get("label", "")).startswith("gen:"):
+            lines = ctx["source"].split("\n")
+            i = len(lines) - 1
+            while i >= 0 and time.time() - t0 < budget:
+                ln = lines[i].strip()
+                simple = ln.endswith(";") and "{" not in ln and "}" not in ln and not ln.startswith(("yieldcode", "finishcode"))
+                if simple:
+                    cand = "\n".join(lines[:i] + lines[i + 1:])
+                    rp3 = Reproducer(dict(ctx, source=cand), workdir, tree, canaries)
+                    ok = False
+                    try:
+                        if rp3.build():
+                            ff, _ = rp3.run(ins, body, fill)
+                            ok = bool(_same(ff, oracle, kind))
+                    finally:
+                        rp3.close()
+                    if ok:
+                        lines = lines[:i] + lines[i + 1:]
+                i -= 1
+            ctx["source"] = "\n".join(lines)
         return ctx, True
     finally:
         rp.close()
